@@ -1688,7 +1688,8 @@ class Bits:
             width_excluding_offset_and_final_group = width - offset_width - group_chars1 - group_chars2 - len(
                 format_sep) * bool(group_chars2)
             width_excluding_offset_and_final_group = max(width_excluding_offset_and_final_group, 0)
-            groups_per_line = 1 + width_excluding_offset_and_final_group // total_group_chars
+            # (Types without a known printed width used with an empty separator give a zero here.)
+            groups_per_line = 1 + (width_excluding_offset_and_final_group // total_group_chars if total_group_chars else 0)
             max_bits_per_line = groups_per_line * bits_per_group  # Number of bits represented on each line
         else:
             assert bits_per_group == 0  # Don't divide into groups
